@@ -62,6 +62,7 @@ inductive Err where
   | msDup          -- duplicated signatures
   | msMatched      -- matched signatures not enough
   | unknownType    -- unknown prefix
+  | scriptAttr     -- GetTxProgramHashes: a Script attribute is not 21 bytes
   deriving DecidableEq, Repr
 
 abbrev Res := R (Except Err Unit)
